@@ -1,5 +1,7 @@
 """histcheck.py — shared helpers for the API-history checks (C04 C05 C06 C14 C19)."""
 last_unrelated = []
+OPS = {}          # operation name -> how many times the generated histories of this run contain it (goes into the evidence)
+HIST_LEN = {}     # history length (operations) -> count
 import vlib
 
 def gen_histories(model, seeds, nops, ndocs=2, profile=0, cfg="10001"):
@@ -7,6 +9,12 @@ def gen_histories(model, seeds, nops, ndocs=2, profile=0, cfg="10001"):
     out, crash = vlib.run_sharded(model, lines, None, 900, ["CFG " + cfg])
     if crash:
         raise vlib.Broken("model driver crashed while generating histories: " + crash[:300])
+    for h in out:
+        steps = [s for s in h.split(" ;; ") if " ## " in s]
+        HIST_LEN[len(steps)] = HIST_LEN.get(len(steps), 0) + 1
+        for st in steps:
+            name = st.split(" ", 1)[0]
+            OPS[name] = OPS.get(name, 0) + 1
     return out
 
 def split_history(hist):
